@@ -256,7 +256,7 @@ fn get_hex(v: &Value, path: &str) -> Felt {
 
 /// Consistent re-declarations: several fields changed together so that configuration and
 /// public-input validation still pass as far as possible.
-fn redeclarations(b: &Base) -> Vec<(String, Value)> {
+pub fn redeclarations(b: &Base) -> Vec<(String, Value)> {
     let mut out = Vec::new();
     let heights = ["config.traces.original.vector.height", "config.traces.interaction.vector.height", "config.composition.vector.height", "config.fri.log_input_size"];
     let n_inner = b.value["config"]["fri"]["inner_layers"].as_array().map(|a| a.len()).unwrap_or(0);
